@@ -8,6 +8,7 @@
      tree                          C17_link_entries_roundtrip, C17_link_roundtrip (any tree, any layout, any order)
      bytes of key tables -> tree   C17_key_tables_roundtrip (the composition of the above),
                                    C17_registry_roundtrip (with competing lower-sequence tables, any order)
+     whole file, one object table  C17_simple_file_roundtrip
      selection rules               C17_free_ignored, C17_active_header, C17_active_key_table
      tie to the source             C17_layouts_and_literals (generated layouts / enums / literals)
    and the object-table worklist of HyperVFile.__init__ (property C11, repaired code):
@@ -139,6 +140,29 @@ Theorem C17_registry_roundtrip :
   exists t, link (active_of f fo (registry All)) = Ok t /\ tree_equiv t (Node (map erase F)).
 Proof. exact registry_roundtrip. Qed.
 Print Assumptions C17_registry_roundtrip.
+
+(* A WHOLE FILE with one object table (the shape of both real samples): two headers (the one with
+   the higher sequence number valid), its replay log, an object table at 0x2000 listing — in any
+   order, among unallocated and ignored entries — key tables (competing ones included), file
+   objects and further replay logs.  HyperVFile(f) opens it and as_dict() is the stored forest.
+   (Files with several object tables: C11_hyperv_worklist_terminates + correspondence.) *)
+Theorem C17_simple_file_roundtrip :
+  forall f h1 h2 oes (All : list ktable) (Ts : list stable) F,
+  parse_fhdr (fread f 0 46) = Some h1 -> parse_fhdr (fread f 4096 46) = Some h2 ->
+  h_sig (active_header h1 h2) = 19406868 -> h_ver (active_header h1 h2) = 1024 ->
+  load_rlog f (h_rlo (active_header h1 h2)) = Ok tt ->
+  load_otab f 8192 = Ok oes ->
+  (forall e, In e oes -> o_alloc e <> 0 -> o_type e <> 1 /\ (o_type e = 6 -> load_rlog f (o_off e) = Ok tt)) ->
+  Forall2 (fun e kt => load_ktab f (o_off e) (o_size e) = Ok kt) (filter is_ktab oes) All ->
+  Forall (stable_ok f (fobjs_of oes)) Ts -> NoDup (map st_idx Ts) ->
+  (forall T, In T Ts -> In (kt_of T) All) ->
+  (forall kt, In kt All -> exists T, In T Ts /\ st_idx T = kt_index kt /\ (kt = kt_of T \/ kt_seq kt < st_seq T)) ->
+  Permutation (flat_map (fun T => live_of (st_slots T)) Ts) (flat_forest root_id F) ->
+  NoDup (root_id :: flat_map aids F) -> forest_keys_unique F ->
+  exists p t, open_file f = Ok p /\ p_first p = (h_seq h1 >? h_seq h2) /\ p_ntables p = 1 /\
+              link (p_tables p) = Ok t /\ tree_equiv t (Node (map erase F)).
+Proof. exact simple_file_roundtrip. Qed.
+Print Assumptions C17_simple_file_roundtrip.
 
 (* free entries are ignored: a file decodes to what it decodes to without them *)
 Theorem C17_free_ignored :
